@@ -1541,6 +1541,57 @@ def drop_self_assignments(tree):
     return tree
 
 
+_MAPPING_NAMES = {"_t.Mapping", "_typing.Mapping", "typing.Mapping", "_abc.Mapping", "_collections_abc.Mapping", "collections.abc.Mapping"}
+_NOT_MAPPINGS = {"bytes", "bytearray", "memoryview", "str", "int", "float", "complex", "list", "tuple", "set", "frozenset"}
+_NOT_BYTES = {"str", "int", "float", "complex", "list", "tuple", "dict", "set", "frozenset", "memoryview"} | _MAPPING_NAMES
+
+
+def fold_isinstance_of_parameters(fn, kinds):
+    """Top-level `if [not] isinstance(<parameter>, T):` statements of a function, as long as the parameter has not been
+    re-bound, decided by the parameter's documented kind: `"bytes"` stands for {bytes, bytearray}, `"mapping"` for any
+    `Mapping`.  Decided only when *every* class of T lies outside the kind (False) or T names the whole kind (True);
+    `isinstance(tlv, dict)`, `isinstance(data, bytearray)` stay undecided and are read as they are."""
+    def decide(test):
+        neg = False
+        if isinstance(test, ast.UnaryOp) and isinstance(test.op, ast.Not):
+            neg = True; test = test.operand
+        if not (isinstance(test, ast.Call) and isinstance(test.func, ast.Name) and test.func.id == "isinstance" and len(test.args) == 2
+                and not test.keywords and isinstance(test.args[0], ast.Name) and test.args[0].id in live):
+            return None
+        kind = live[test.args[0].id]
+        names = {ast.unparse(x) for x in (test.args[1].elts if isinstance(test.args[1], ast.Tuple) else [test.args[1]])}
+        if kind == "bytes":
+            if names <= _NOT_BYTES:
+                return neg
+            if {"bytes", "bytearray"} <= names:
+                return not neg
+        if kind == "mapping":
+            if names <= _NOT_MAPPINGS:
+                return neg
+            if names & _MAPPING_NAMES:
+                return not neg
+        return None
+    live = dict(kinds)
+    out = []
+    for st in fn.body:
+        if isinstance(st, ast.If) and live:
+            v = decide(st.test)
+            if v is not None:
+                chosen = st.body if v else st.orelse
+                for c in chosen:
+                    for n in ast.walk(c):
+                        if isinstance(n, ast.Name) and isinstance(n.ctx, (ast.Store, ast.Del)):
+                            live.pop(n.id, None)
+                out += chosen
+                continue
+        for n in ast.walk(st):
+            if isinstance(n, ast.Name) and isinstance(n.ctx, (ast.Store, ast.Del)):
+                live.pop(n.id, None)
+        out.append(st)
+    fn.body = out or [ast.Pass()]
+    return fn
+
+
 def fold_all_constant_ifs(tree):
     """tests that became literal (a default substituted for a new parameter, then a helper inlined) are folded"""
     for fn in [n for n in ast.walk(tree) if isinstance(n, ast.FunctionDef)]:
